@@ -77,7 +77,7 @@ def classify(inv, rec, grp):
     known = {f["id"]: f for f in vlib.known_for(PROP)}
     if "F5" in known and inv == "C01_NoCrossing" and "step" not in rec:      # synthetic-grid records carry exact lattice inputs
         w = snapcheck.f5_key_matches(vlib.build_harness(), [json.dumps(rec)])
-        if w is not None:
+        if w is not None and snapcheck.codesnap_agrees(rec):
             return ("F5", known["F5"]["what"])
     return None
 
